@@ -443,3 +443,22 @@ class w_invalidate:
 class cc_set_depends:
     self_shape = CCANVAS
     modifies = ()
+
+
+# ---- mouse event names (opaque keys): is_mouse_press is an uninterpreted predicate of the event
+
+
+def is_press(ev):
+    """urwid.util.is_mouse_press(ev) for an opaque event name (dual use)."""
+    if isinstance(ev, V.Sym):
+        f = z3.Function("Key.is_mouse_press", ev.e.sort(), z3.BoolSort())
+        return mk_bool(f(ev.e))
+    return "press" in ev
+
+
+@contract("urwid/util.py:is_mouse_press", property=(), assumed=True,
+          notes="`'press' in ev`: a pure function of the event name; event names are opaque keys here, so the result is an uninterpreted predicate of the event")
+class is_mouse_press_c:
+    params = dict(ev=Opaque("Key"))
+    result = Bool
+    pure_spec = staticmethod(lambda a: is_press(a.ev))
